@@ -2,6 +2,9 @@
 //! REAL program (`marginfi::entry` through the sim runtime) on a copy of a fixed fixture world.
 //!
 //! case lines
+//!   S <account_flags> <authority> <group_admin> <signer> <allow_receivership>   (level A) the real
+//!        is_signer_authorized / account_not_frozen_for_authority; keys are small integers; out: `<b> <b>`
+//!   G <operational_state 0..3> <kind 0..3>       (level A) the real validate_bank_state; out: OK | E<code>
 //!   W                                            dump the auth-relevant projection of the fixture world
 //!   X ix=<name> m=<full|val> t=<clock delta> a=<field:obj,...> sg=<bits> wr=<bits> tw=<tweak;...|->
 //!        a   : the instruction's accounts in struct order (field name is informational here)
@@ -41,7 +44,7 @@ use solana_program::pubkey::Pubkey;
 use solana_program::{system_program, sysvar};
 
 use crate::sim::ixs;
-use crate::sim::runtime::{ata_address, Acct, ExecError, Ix, World, ATA_PROGRAM_ID};
+use crate::sim::runtime::{Acct, ExecError, Ix, World, ATA_PROGRAM_ID};
 use crate::sim::*;
 
 // ---------------------------------------------------------------------------------------------
@@ -1132,6 +1135,44 @@ pub fn run(line: &str) -> String {
     let kind = it.next().expect("empty case");
     if kind == "W" {
         return dump_world(&fx);
+    }
+    if kind == "S" {
+        let v: Vec<&str> = it.collect();
+        let key = |x: &str| {
+            let mut b = [0u8; 32];
+            b[..8].copy_from_slice(&x.parse::<u64>().expect("key").to_le_bytes());
+            Pubkey::new_from_array(b)
+        };
+        let mut a = MarginfiAccount::zeroed();
+        a.account_flags = v[0].parse::<u64>().expect("flags");
+        a.authority = key(v[1]);
+        let (admin, signer, allow) = (key(v[2]), key(v[3]), v[4] == "1");
+        let r1 = marginfi::state::marginfi_account::is_signer_authorized(&a, admin, signer, allow);
+        let r2 = marginfi::state::marginfi_account::account_not_frozen_for_authority(&a, signer);
+        return format!("{} {}", r1 as u8, r2 as u8);
+    }
+    if kind == "G" {
+        use marginfi::utils::InstructionKind as K;
+        let v: Vec<&str> = it.collect();
+        let mut b = Bank::zeroed();
+        b.config.operational_state = match v[0] {
+            "0" => BankOperationalState::Paused,
+            "1" => BankOperationalState::Operational,
+            "2" => BankOperationalState::ReduceOnly,
+            "3" => BankOperationalState::KilledByBankruptcy,
+            _ => panic!("state"),
+        };
+        let k = match v[1] {
+            "0" => K::Unrestricted,
+            "1" => K::FailsInReduceState,
+            "2" => K::FailsInPausedState,
+            "3" => K::FailsIfPausedOrReduceState,
+            _ => panic!("kind"),
+        };
+        return match marginfi::utils::validate_bank_state(&b, k) {
+            Ok(()) => "OK".to_string(),
+            Err(e) => crate::util::err_tok(&e),
+        };
     }
     let toks: BTreeMap<&str, &str> = it.filter_map(|t| t.split_once('=')).collect();
     let name = field(&toks, "ix");
